@@ -1,18 +1,26 @@
 // corr-c19-race: the supporting run of property C19 (not the proof; see Goyang/Props/C19.lean).
 //
 // Built with the race detector (the dispatcher builds cmd/*-race with `go build -race`,
-// CGO_ENABLED=1).  Every round, in a child process with GORACE="halt_on_error=1 exitcode=66":
+// CGO_ENABLED=1).  Rounds run in child processes with GORACE="halt_on_error=1 exitcode=66", 20
+// (quick) or 100 (thorough) rounds per process.  Every round STARTS COLD WITH THE CONCURRENT
+// PHASE; the sequential reference answers are computed afterwards:
 //
-//   - one generated module set is loaded and processed sequentially: the shared set;
-//   - an identical copy is processed sequentially and queried sequentially with the reader
-//     script: the expected answers;
-//   - N goroutines (8 quick / 32 thorough) are released together: N/2 run the full pipeline
-//     (NewModules, Parse of 2-4 generated modules and a submodule, Process, ToEntry, walk, dump)
-//     each on a module set of its own; N/2 run the reader script against the shared set,
-//     beginning with the namespace look-ups, so that the first-time (uncached) look-ups of all
-//     readers meet;
-//   - every pipeline dump is compared with the dump of a sequential run of the same sources,
-//     every reader answer with the expected answer;
+//   - N goroutines (8 quick / 32 thorough).  N/2 pipelines are released together, each running
+//     the full pipeline (NewModules, Parse of 2-4 generated modules and sometimes a submodule,
+//     Process, ToEntry, walk, dump) on module sets of its own.  Pipeline 0 first loads and
+//     processes the shared set and publishes it; the N/2 readers then run the reader script
+//     against it while pipelines are still working, beginning with the namespace look-ups, so
+//     that the first-time (uncached) look-ups of all readers meet;
+//   - in the first round of a process nothing has touched goyang before the goroutines are
+//     released, so any first-use write of process-wide state (a lazily filled package-level
+//     table) happens concurrently.  The first round uses the base statement kinds only (module,
+//     import, container, leaf, typedef, identity); each later round of the process adds one more
+//     kind (uses/grouping, leaf-list, list, choice, nested containers, rpc, action, notification,
+//     anydata/anyxml, augment, deviation, submodule; order varies per process), so every kind is
+//     converted for the first time in its process by concurrent goroutines;
+//   - afterwards, sequentially: an identical copy of the shared set is processed and queried with
+//     the same script (the expected answers) and every private set is run again (the expected
+//     dumps); every reader answer and every pipeline dump is compared;
 //   - the conditions that put the allow-listed write sites (harness/cmd/extract-access/
 //     allow.json) outside the claim are asserted: ToEntry of a processed module returns the entry
 //     cached by Process; Find is called with paths of existing nodes only and afterwards no root
@@ -20,7 +28,8 @@
 //     shared set keep their keys; every Print call writes to a buffer of its own.
 //
 // A race report (exit status 66 of the child), a crash, a time-out or a differing answer is a
-// disagreement of kind "crash" / "spec" whose replay is the seed and the round.
+// disagreement of kind "crash" / "spec" whose replay is the seed and the round (replayed together
+// with the rounds that preceded it in its process).
 package main
 
 import (
@@ -616,132 +625,180 @@ type roundResult struct {
 	SharedErrs  int      `json:"shared_errors"`
 	// UnexpectedErrs: a set generated as valid did not process cleanly; SeqAnomalies: sequential
 	// answers that are wrong look-ups or panics (not C19's subject; the reference all the same)
-	UnexpectedErrs bool `json:"unexpected_errors"`
-	SeqAnomalies   int  `json:"sequential_anomalies"`
+	UnexpectedErrs bool     `json:"unexpected_errors"`
+	SeqAnomalies   int      `json:"sequential_anomalies"`
+	Kinds          []string `json:"kinds"` // optional statement kinds the sets of this round may use
 }
 
 func roundSeed(seed int64, round int) int64 { return seed*1000003 + int64(round)*7919 + 17 }
 
-func doRound(seed int64, round, n int) roundResult {
+// doRound: the concurrent phase comes FIRST.  Nothing in this process has touched the set's
+// statement kinds before the goroutines are released (in the first round of a process nothing has
+// touched goyang at all), so first-use writes of process-wide state happen while the other
+// goroutines run.  The sequential reference answers are computed afterwards.
+//
+//	pipeline 0      loads and processes the shared set, derives the reader script from it
+//	                (reading only), publishes it, then goes on with private sets like the others
+//	pipelines 1..   load, process, convert, walk and dump private sets
+//	readers         wait for the shared set, then run the script against it, namespace look-ups
+//	                first, all released together
+func doRound(seed int64, round, n, batch int) roundResult {
 	r := rand.New(rand.NewSource(roundSeed(seed, round)))
 	res := roundResult{Round: round}
+	pal, kinds := paletteFor(seed, round, batch)
+	res.Kinds = kinds
 	withErrors := round%4 == 3
-	shared, st := genSet(r, withErrors)
+	shared, st := genSet(r, withErrors, pal)
 	res.SharedHash = hashSet(shared)
 	res.Modules = st.modules
 	res.WithErrors = withErrors
 	res.Nontrivial = st.modules >= 3 && st.rpcs > 0 && st.augments > 0 && st.uses > 0
 
-	// private sets of the pipeline goroutines and their sequential dumps
 	np := n / 2
-	privs := make([][]modSrc, np)
-	wantDump := make([]string, np)
+	nr := n - np
+	// Some pipelines work through three sets so that they are still running while the readers
+	// query the shared set; with many pipelines the rest do one set each (time budget).
+	privs := make([][][]modSrc, np)
 	for k := range privs {
-		privs[k], _ = genSet(r, r.Intn(5) == 0)
-		wantDump[k] = pipeline(privs[k])
-	}
-
-	// reference copy: expected answers, sequentially
-	refMS, _ := load(shared)
-	refRoots := map[string]*yang.Entry{}
-	for _, name := range modNames(refMS) {
-		refRoots[name] = yang.ToEntry(refMS.Modules[name])
-	}
-	sr := rand.New(rand.NewSource(roundSeed(seed, round) + 1))
-	nsOps, restOps := script(refMS, refRoots, sr)
-	ops := append(append([]op{}, nsOps...), restOps...)
-	want := make([]string, len(ops))
-	for i, o := range ops {
-		want[i] = run(refMS, refRoots, o)
-		switch {
-		case strings.HasPrefix(want[i], "GUARD"):
-			// a guard of the allow-list fires on an input the property speaks about
-			res.Problems = append(res.Problems, fmt.Sprintf("sequential run: %s -> %s", o, want[i]))
-		case strings.HasPrefix(want[i], "HARNESS"), strings.HasPrefix(want[i], "Find returned"), strings.HasPrefix(want[i], "PANIC"):
-			// wrong or crashing look-ups are other properties' business (C17, C01); here the
-			// sequential answer is the reference whatever it is.  Counted, not reported.
-			res.SeqAnomalies++
+		sets := 3
+		if np > 4 && k >= np/8 {
+			sets = 1
+		}
+		for q := 0; q < sets; q++ {
+			set, _ := genSet(r, r.Intn(5) == 0, pal)
+			privs[k] = append(privs[k], set)
 		}
 	}
-	res.Ops = len(ops)
-	res.FirstTimeNS = len(nsOps)
 
-	// the shared set: processed here, its namespace cache still empty
-	shMS, shErrs := load(shared)
-	res.SharedErrs = len(shErrs)
-	if !withErrors && len(shErrs) > 0 {
-		// the generator meant this set to be valid; the comparison with the sequential run is
-		// still meaningful, but the round does not count as non-trivial
-		res.UnexpectedErrs = true
-		res.Nontrivial = false
-	}
-	shRoots := map[string]*yang.Entry{}
-	for _, name := range modNames(shMS) {
-		shRoots[name] = yang.ToEntry(shMS.Modules[name])
-		res.Nodes += len(walk(name, shRoots[name]))
-	}
-	before := snap(shMS, shRoots)
-
-	nr := n - np
+	// written by pipeline 0 before it closes sharedReady, read by the readers after it
+	var (
+		shMS           *yang.Modules
+		shErrs         []string
+		shRoots        = map[string]*yang.Entry{}
+		nsOps, restOps []op
+		ops            []op
+		before         snapshot
+		builderPanic   string
+	)
+	start := make(chan struct{})
+	sharedReady := make(chan struct{})
 	got := make([][]string, nr)
-	gotDump := make([]string, np)
-	startGate := make(chan struct{})
+	gotDump := make([][]string, np)
 	var wg sync.WaitGroup
+	for k := 0; k < np; k++ {
+		wg.Add(1)
+		go func(k int) {
+			defer wg.Done()
+			<-start
+			if k == 0 {
+				func() {
+					defer close(sharedReady)
+					builderPanic = guard(func() string {
+						shMS, shErrs = load(shared)
+						for _, name := range modNames(shMS) {
+							shRoots[name] = yang.ToEntry(shMS.Modules[name])
+						}
+						nsOps, restOps = script(shMS, shRoots, rand.New(rand.NewSource(roundSeed(seed, round)+1)))
+						ops = append(append([]op{}, nsOps...), restOps...)
+						before = snap(shMS, shRoots)
+						return ""
+					})
+				}()
+			}
+			for _, set := range privs[k] {
+				gotDump[k] = append(gotDump[k], pipeline(set))
+			}
+		}(k)
+	}
 	for k := 0; k < nr; k++ {
 		wg.Add(1)
 		go func(k int) {
 			defer wg.Done()
+			<-sharedReady
+			if builderPanic != "" {
+				return
+			}
 			pr := rand.New(rand.NewSource(roundSeed(seed, round) + 100 + int64(k)))
 			order := make([]int, 0, len(ops))
-			first := pr.Perm(len(nsOps))
-			order = append(order, first...)
+			order = append(order, pr.Perm(len(nsOps))...)
 			for _, i := range pr.Perm(len(restOps)) {
 				order = append(order, len(nsOps)+i)
 			}
 			out := make([]string, len(ops))
-			<-startGate
 			for _, i := range order {
 				out[i] = run(shMS, shRoots, ops[i])
 			}
 			got[k] = out
 		}(k)
 	}
-	for k := 0; k < np; k++ {
-		wg.Add(1)
-		go func(k int) {
-			defer wg.Done()
-			<-startGate
-			gotDump[k] = pipeline(privs[k])
-		}(k)
-	}
-	close(startGate)
+	close(start)
 	wg.Wait()
 
-	for k := 0; k < nr; k++ {
-		for i := range ops {
-			res.Evals++
-			if got[k][i] != want[i] {
-				res.Problems = append(res.Problems, fmt.Sprintf("reader %d: %s: concurrent answer %q, sequential answer %q", k, ops[i], got[k][i], want[i]))
-				if len(res.Problems) > 20 {
-					break
+	// ---- afterwards, sequentially: the reference answers
+	if builderPanic != "" {
+		// a crash while processing is C01's subject; without a shared set there is nothing to read
+		res.SeqAnomalies++
+	} else {
+		res.SharedErrs = len(shErrs)
+		if !withErrors && len(shErrs) > 0 {
+			// the generator meant this set to be valid; the comparison with the sequential run
+			// is still meaningful, but the round does not count as non-trivial
+			res.UnexpectedErrs = true
+			res.Nontrivial = false
+		}
+		for _, name := range modNames(shMS) {
+			res.Nodes += len(walk(name, shRoots[name]))
+		}
+		res.Ops = len(ops)
+		res.FirstTimeNS = len(nsOps)
+		refMS, _ := load(shared)
+		refRoots := map[string]*yang.Entry{}
+		for _, name := range modNames(refMS) {
+			refRoots[name] = yang.ToEntry(refMS.Modules[name])
+		}
+		want := make([]string, len(ops))
+		for i, o := range ops {
+			want[i] = run(refMS, refRoots, o)
+			switch {
+			case strings.HasPrefix(want[i], "GUARD"):
+				// a guard of the allow-list fires on an input the property speaks about
+				res.Problems = append(res.Problems, fmt.Sprintf("sequential run: %s -> %s", o, want[i]))
+			case strings.HasPrefix(want[i], "HARNESS"), strings.HasPrefix(want[i], "Find returned"), strings.HasPrefix(want[i], "PANIC"):
+				// wrong or crashing look-ups are other properties' business (C17, C01); here the
+				// sequential answer is the reference whatever it is.  Counted, not reported.
+				res.SeqAnomalies++
+			}
+		}
+		for k := 0; k < nr; k++ {
+			for i := range ops {
+				res.Evals++
+				if got[k][i] != want[i] {
+					res.Problems = append(res.Problems, fmt.Sprintf("reader %d: %s: concurrent answer %q, sequential answer %q", k, ops[i], got[k][i], want[i]))
+					if len(res.Problems) > 20 {
+						break
+					}
 				}
 			}
 		}
+		res.Problems = append(res.Problems, before.diff(snap(shMS, shRoots))...)
 	}
 	for k := 0; k < np; k++ {
-		res.Evals++
-		if gotDump[k] != wantDump[k] {
-			res.Problems = append(res.Problems, fmt.Sprintf("pipeline %d: dump of the concurrent run differs from the sequential run (%d vs %d bytes)", k, len(gotDump[k]), len(wantDump[k])))
+		for q, set := range privs[k] {
+			res.Evals++
+			if want := pipeline(set); gotDump[k][q] != want {
+				res.Problems = append(res.Problems, fmt.Sprintf("pipeline %d, set %d: dump of the concurrent run differs from the sequential run (%d vs %d bytes)", k, q, len(gotDump[k][q]), len(want)))
+			}
 		}
 	}
-	res.Problems = append(res.Problems, before.diff(snap(shMS, shRoots))...)
 	return res
 }
 
 // showRound prints the program of a round: the shared sources, the script, the sequential answers.
-func showRound(seed int64, round int) {
+func showRound(seed int64, round, batch int) {
 	r := rand.New(rand.NewSource(roundSeed(seed, round)))
-	shared, _ := genSet(r, round%4 == 3)
+	pal, kinds := paletteFor(seed, round, batch)
+	fmt.Printf("---- round %d = stage %d of its process; optional statement kinds in use: %v\n", round, round%batch, kinds)
+	shared, _ := genSet(r, round%4 == 3, pal)
 	for _, s := range shared {
 		fmt.Printf("---- %s\n%s", s.Name, s.Text)
 	}
@@ -760,12 +817,12 @@ func showRound(seed int64, round int) {
 // ---------------------------------------------------------------------------------------------
 // child / parent
 
-func child(seed int64, from, to, n int) {
+func child(seed int64, from, to, n, batch int) {
 	debug.SetTraceback("single")
 	enc := json.NewEncoder(os.Stdout)
 	for round := from; round < to; round++ {
 		fmt.Fprintf(os.Stderr, "@round %d\n", round)
-		enc.Encode(doRound(seed, round, n))
+		enc.Encode(doRound(seed, round, n, batch))
 	}
 }
 
@@ -777,12 +834,13 @@ type batchOutcome struct {
 	timeout bool
 }
 
-func runBatch(seed int64, from, to, n int, limit time.Duration) batchOutcome {
+func runBatch(seed int64, from, to, n, batch int, limit time.Duration) batchOutcome {
 	self, err := os.Executable()
 	if err != nil {
 		lib.Fatal("executable: %v", err)
 	}
-	cmd := exec.Command(self, "-child", "-seed", fmt.Sprint(seed), "-from", fmt.Sprint(from), "-to", fmt.Sprint(to), "-n", fmt.Sprint(n))
+	cmd := exec.Command(self, "-child", "-seed", fmt.Sprint(seed), "-from", fmt.Sprint(from), "-to", fmt.Sprint(to), "-n", fmt.Sprint(n),
+		"-batch", fmt.Sprint(batch))
 	cmd.Env = append(os.Environ(), "GORACE=halt_on_error=1 exitcode=66")
 	var so, se bytes.Buffer
 	cmd.Stdout, cmd.Stderr = &so, &se
@@ -845,10 +903,13 @@ func raceSummary(stderr string) string {
 	return strings.Join(keep, "\n")
 }
 
+// replayInfo: the failing round is re-run together with the rounds that preceded it in its
+// process (rounds [Round - Round%Batch, Round]), because what is cold in a round depends on them.
 type replayInfo struct {
 	Seed  int64 `json:"seed"`
 	Round int   `json:"round"`
 	N     int   `json:"goroutines"`
+	Batch int   `json:"rounds_per_process"`
 }
 
 func main() {
@@ -857,20 +918,24 @@ func main() {
 	from := flag.Int("from", 0, "")
 	to := flag.Int("to", 0, "")
 	nflag := flag.Int("n", 0, "goroutines per round (default 8 quick / 32 thorough)")
+	batchFlag := flag.Int("batch", 0, "rounds per child process (default 20 quick / 100 thorough); also the period of the statement-kind stages")
 	rounds := flag.Int("rounds", 0, "rounds (default 200 quick / 20000 thorough)")
-	parFlag := flag.Int("par", 0, "child processes at a time (default 4 quick / 10 thorough)")
+	parFlag := flag.Int("par", 0, "child processes at a time (default 4 quick / 12 thorough)")
 	f := lib.ParseFlags()
 	if *isChild {
-		child(f.Seed, *from, *to, *nflag)
+		child(f.Seed, *from, *to, *nflag, *batchFlag)
 		return
+	}
+	n, total, par, batch := 8, 200, 4, 20
+	if f.Thorough() {
+		n, total, par, batch = 32, 20000, 12, 100
+	}
+	if *batchFlag > 0 {
+		batch = *batchFlag
 	}
 	if *show >= 0 {
-		showRound(f.Seed, *show)
+		showRound(f.Seed, *show, batch)
 		return
-	}
-	n, total, par, batch := 8, 200, 4, 25
-	if f.Thorough() {
-		n, total, par, batch = 32, 20000, 10, 250
 	}
 	if *parFlag > 0 {
 		par = *parFlag
@@ -882,13 +947,14 @@ func main() {
 		total = *rounds
 	}
 	if f.Replay != "" {
-		replay(f, n)
+		replay(f, n, batch)
 		return
 	}
 	res := lib.NewResult("C19", f)
 	res.Rule = "distinct_nontrivial = number of distinct generated shared module sets (hash of the sources) with at least 3 modules, " +
-		"an rpc, a cross-module augment and a uses, each processed once and then queried by goroutines/2 concurrent readers while " +
-		"goroutines/2 pipelines run on sets of their own; evaluations = reader answers and pipeline dumps compared with the sequential run"
+		"an rpc, a cross-module augment and a uses (possible from the stage of a process at which these kinds are in use), each processed by one " +
+		"pipeline goroutine and then queried by goroutines/2 concurrent readers while goroutines/2 pipelines run on sets of their own, " +
+		"the concurrent phase first in a cold process, the sequential reference afterwards; evaluations = reader answers and pipeline dumps compared with the sequential run"
 	distinct := lib.NewDistinct()
 	var mu sync.Mutex
 	var nodes, ops, firstNS, mods, withErr, roundsDone, unexpected, anomalies int64
@@ -907,7 +973,7 @@ func main() {
 				if s {
 					continue
 				}
-				o := runBatch(f.Seed, j.from, j.to, n, 20*time.Minute)
+				o := runBatch(f.Seed, j.from, j.to, n, batch, 20*time.Minute)
 				mu.Lock()
 				for _, rr := range o.results {
 					roundsDone++
@@ -937,7 +1003,7 @@ func main() {
 						res.AddDisagreement(lib.Disagreement{Kind: "spec", SpecVerdict: "violates",
 							Input: map[string]any{"seed": f.Seed, "round": rr.Round, "goroutines": n, "shared_set": rr.SharedHash},
 							Go:    rr.Problems, What: "C19: concurrent run differs from the sequential run, or a guard of the allow-list fired: " + rr.Problems[0],
-							Replay: replayInfo{f.Seed, rr.Round, n}})
+							Replay: replayInfo{f.Seed, rr.Round, n, batch}})
 					}
 				}
 				if o.rc != 0 || o.timeout {
@@ -951,13 +1017,13 @@ func main() {
 					// best effort: is it reproducible from the seed?
 					again := 0
 					for t := 0; t < 3; t++ {
-						if o2 := runBatch(f.Seed, o.last, o.last+1, n, 5*time.Minute); o2.rc != 0 || o2.timeout {
+						if o2 := runBatch(f.Seed, o.last-o.last%batch, o.last+1, n, batch, 5*time.Minute); o2.rc != 0 || o2.timeout {
 							again++
 						}
 					}
 					res.AddDisagreement(lib.Disagreement{Kind: "crash", SpecVerdict: "violates",
 						Input: map[string]any{"seed": f.Seed, "round": o.last, "goroutines": n, "reproduced": fmt.Sprintf("%d of 3 re-runs of the round", again)},
-						Go:    raceSummary(o.stderr), What: what, Replay: replayInfo{f.Seed, o.last, n}})
+						Go:    raceSummary(o.stderr), What: what, Replay: replayInfo{f.Seed, o.last, n, batch}})
 					mu.Lock()
 					stop = true
 					mu.Unlock()
@@ -976,6 +1042,8 @@ func main() {
 	wg.Wait()
 	res.DistinctNontrivial = distinct.Len()
 	res.Distribution["rounds"] = roundsDone
+	res.Distribution["cold_processes"] = (total + batch - 1) / batch
+	res.Distribution["rounds_per_process"] = batch
 	res.Distribution["goroutines_per_round"] = n
 	res.Distribution["readers_per_round"] = n - n/2
 	res.Distribution["pipelines_per_round"] = n / 2
@@ -994,6 +1062,7 @@ func main() {
 	res.Notes = append(res.Notes,
 		"supporting run, not the proof: schedules are sampled; the race detector reports only races that happen in an executed schedule",
 		"reader paths: only existing nodes; the guards of the allow-list (allow.json) are asserted after every round",
+		"cold start: each child process begins with the concurrent phase (nothing converted before); statement kinds are introduced one per round within a process, so first-use writes of process-wide tables meet concurrent goroutines",
 		fmt.Sprintf("child processes run with GORACE=halt_on_error=1 exitcode=66, %d at a time, %d rounds each", par, batch))
 	if int(roundsDone) < total && len(res.Disagreements) == 0 {
 		lib.Fatal("only %d of %d rounds reported", roundsDone, total)
@@ -1004,7 +1073,7 @@ func main() {
 	}
 }
 
-func replay(f *lib.Flags, n int) {
+func replay(f *lib.Flags, n, batch int) {
 	raw, err := os.ReadFile(f.Replay)
 	if err != nil {
 		lib.Fatal("%v", err)
@@ -1021,29 +1090,41 @@ func replay(f *lib.Flags, n int) {
 	if ri.N > 0 {
 		n = ri.N
 	}
+	if ri.Batch > 0 {
+		batch = ri.Batch
+	}
+	first := ri.Round - ri.Round%batch
 	// the program of the round: the shared module set (the private sets and the reader script
-	// derive from the same seed; `-show <round> -seed <seed>` prints script and sequential answers)
-	shared, _ := genSet(rand.New(rand.NewSource(roundSeed(ri.Seed, ri.Round))), ri.Round%4 == 3)
-	fmt.Printf("replay: seed %d round %d, %d goroutines; shared module set %s:\n", ri.Seed, ri.Round, n, hashSet(shared))
+	// derive from the same seed; `-show <round> -seed <seed> -batch <b>` prints script and answers)
+	pal, kinds := paletteFor(ri.Seed, ri.Round, batch)
+	shared, _ := genSet(rand.New(rand.NewSource(roundSeed(ri.Seed, ri.Round))), ri.Round%4 == 3, pal)
+	fmt.Printf("replay: seed %d, rounds %d..%d of one fresh process (the recorded round is the last), %d goroutines;\n"+
+		"optional statement kinds of round %d: %v; its shared module set %s:\n", ri.Seed, first, ri.Round, n, ri.Round, kinds, hashSet(shared))
 	for _, src := range shared {
 		fmt.Printf("---- %s\n%s", src.Name, src.Text)
 	}
 	bad := 0
-	const tries = 40
+	const tries = 20
 	for t := 0; t < tries && bad == 0; t++ {
-		o := runBatch(ri.Seed, ri.Round, ri.Round+1, n, 5*time.Minute)
+		o := runBatch(ri.Seed, first, ri.Round+1, n, batch, 10*time.Minute)
+		var probs []string
+		for _, rr := range o.results {
+			for _, p := range rr.Problems {
+				probs = append(probs, fmt.Sprintf("round %d: %s", rr.Round, p))
+			}
+		}
 		switch {
 		case o.rc != 0 || o.timeout:
 			bad++
-			fmt.Printf("run %d: child status %d timeout=%v\n%s\n", t, o.rc, o.timeout, raceSummary(o.stderr))
-		case len(o.results) == 1 && len(o.results[0].Problems) > 0:
+			fmt.Printf("run %d: child status %d in round %d, timeout=%v\n%s\n", t, o.rc, o.last, o.timeout, raceSummary(o.stderr))
+		case len(probs) > 0:
 			bad++
-			fmt.Printf("run %d: %s\n", t, strings.Join(o.results[0].Problems, "\n  "))
+			fmt.Printf("run %d: %s\n", t, strings.Join(probs, "\n  "))
 		default:
-			fmt.Printf("run %d: seed %d round %d with %d goroutines: no race report, all answers equal to the sequential run\n", t, ri.Seed, ri.Round, n)
+			fmt.Printf("run %d: no race report, all answers equal to the sequential run\n", t)
 		}
 	}
-	fmt.Printf("Go: %d run(s) of the round failed (up to %d tried, stopping at the first failure); model: race free under the extracted discipline (Props/C19.lean); spec verdict: %s\n",
+	fmt.Printf("Go: %d run(s) failed (up to %d tried, stopping at the first failure); model: race free under the extracted discipline (Props/C19.lean); spec verdict: %s\n",
 		bad, tries, map[bool]string{true: "violates", false: "holds (on the schedules tried)"}[bad > 0])
 	if bad > 0 {
 		os.Exit(1)
